@@ -84,7 +84,7 @@ var agl = map[string]rune{
 	"periodcentered": 0x00B7, "cedilla": 0x00B8, "onesuperior": 0x00B9, "ordmasculine": 0x00BA,
 	"guillemotright": 0x00BB, "onequarter": 0x00BC, "onehalf": 0x00BD, "threequarters": 0x00BE,
 	"questiondown": 0x00BF,
-	"Agrave": 0x00C0, "Aacute": 0x00C1, "Acircumflex": 0x00C2, "Atilde": 0x00C3, "Adieresis": 0x00C4,
+	"Agrave":       0x00C0, "Aacute": 0x00C1, "Acircumflex": 0x00C2, "Atilde": 0x00C3, "Adieresis": 0x00C4,
 	"Aring": 0x00C5, "AE": 0x00C6, "Ccedilla": 0x00C7, "Egrave": 0x00C8, "Eacute": 0x00C9,
 	"Ecircumflex": 0x00CA, "Edieresis": 0x00CB, "Igrave": 0x00CC, "Iacute": 0x00CD,
 	"Icircumflex": 0x00CE, "Idieresis": 0x00CF, "Eth": 0x00D0, "Ntilde": 0x00D1, "Ograve": 0x00D2,
